@@ -143,7 +143,7 @@ func init() {
 			if tier == "thorough" {
 				return 1000000
 			}
-			return 15000
+			return 40000
 		},
 		Budget: func(tier string) time.Duration {
 			if tier == "thorough" {
